@@ -269,7 +269,7 @@ def check(ctx, case):
 
 def shard_main(ctx):
     from hypothesis import given
-    n = {"quick": 1200, "thorough": 20000}[ctx.tier]
+    n = {"quick": 2000, "thorough": 40000}[ctx.tier]
 
     @given(cases)
     def test(case):
